@@ -120,6 +120,18 @@ where
     }
 }
 
+#[cfg(feature = "verif-hooks")]
+impl<R, RNG, const N: usize, const D: usize> Device<R, RNG, N, D>
+where
+    R: PhyRxTx + Timings,
+    RNG: RngCore,
+{
+    /// Read-only snapshot of the MAC configuration and channel plan.
+    pub fn verif_snapshot(&self) -> crate::verif::Snapshot {
+        self.shared.mac.verif_snapshot()
+    }
+}
+
 pub(crate) struct Shared<R: PhyRxTx + Timings, RNG: RngCore, const N: usize, const D: usize> {
     pub(crate) radio: R,
     pub(crate) rng: RNG,
